@@ -5,7 +5,7 @@
 From Coq Require Import List NArith Bool Lia Arith ZifyBool ZifyNat ZifyN.
 Import ListNotations.
 From SV Require Import Utf8 gen_Unicode Escape EscapeProofs ExpGrammar Rules Template LineParser CramSpec CramProofs Generate GenerateProofs.
-From SV Require Import Render RenderProofs ScriptExecProofs EnvProofs GenBlock Markdown MdSpec MarkdownProofs MdParseProofs Update UpdateProofs.
+From SV Require Import Render RenderProofs ScriptExecProofs EnvProofs GenBlock Markdown MdSpec MarkdownProofs MdParseProofs Update UpdateProofs GuardProofs.
 Local Open Scope N_scope.
 
 Lemma digits_value_valf : forall ds a, digits_value a ds = valf a ds.
@@ -232,4 +232,15 @@ Lemma gen_md_doc_g_same : forall m title cmd conts lines code, Forall (no_suffix
 Proof.
   intros m title cmd conts lines code Hn Hg Hd. unfold gen_md_doc_g, gen_md_doc, gen_body_g, gen_body.
   rewrite (guarded_lines_same true m lines Hn Hg (fun _ => Hd)). rewrite map_map. reflexivity.
+Qed.
+
+(* where the first guard applies, the line that is written reads back as an escaped expectation for that very line *)
+Theorem guarded_line_reads_back : forall rp rc gn first cram m c rest line, out_line (c :: rest) line ->
+  (first && starts_with P_GT (written_line m line)) || (cram && starts_with P_DOLLAR (written_line m line)) = true ->
+  strip_suffix S_NOEOL ([92; 120; hexd (c / 16); hexd (c mod 16)] ++ skipn 4 (escaped_printable m (1 :: rest))) = None ->
+  exists r, ExpGrammar.parse rp rc gn (guarded_line first cram m line) = POk (mkE r false false) /\ rule_matches r line = true.
+Proof.
+  intros rp rc gn first cram m c rest line HL G HS. unfold guarded_line. cbv zeta. rewrite G.
+  rewrite (trim_out_line (c :: rest) line HL). rewrite (guard_noeol_id _ HS).
+  exact (guarded_round_trip rp rc gn m c rest line HL HS).
 Qed.
